@@ -433,7 +433,8 @@ def main(argv=None):
         violations=len(vlines),
     )
     if not errors or vlines:
-        with open(os.path.join(EVIDENCE, "%s.json" % prop), "w") as f:
+        # a run restricted with --only is an exploration aid: it must not replace the evidence of the full check
+        with open(os.path.join(EVIDENCE, "%s%s.json" % (prop, ".partial" if args.only else "")), "w") as f:
             json.dump(ev, f, indent=1, default=str)
     print("%s tier=%s seed=%d evaluations=%d distinct_nontrivial=%d violations=%d wall=%.1fs" % (
         prop, args.tier, args.seed, evaluations, len(nontriv), len(vlines), time.time() - t0))
